@@ -176,10 +176,11 @@ func (e *pgEnv) upload(names, lt, pt []byte, hunch *string, wd time.Duration) (i
 	return rec.Code, rec.Body.String(), ""
 }
 
-func runC20(h *H) {
+func runC20(h *H) { runUploads(h, "C20", h.budget(300, 6000)) }
+
+func runUploads(h *H, prop string, n int) {
 	g := h.g
 	env := newPgEnv()
-	n := h.budget(300, 6000)
 	wd := 30 * time.Second
 	outcomes := map[string]int{}
 	for k := 0; k < n; k++ {
@@ -285,7 +286,7 @@ func runC20(h *H) {
 		}
 		lb, pb := csvBytes(ltRecs), csvBytes(ptRecs)
 		code, page, oc := env.upload(nb, lb, pb, hp, wd)
-		w := h.line("C20", "upload").Bool(hasNames)
+		w := h.line(prop, "upload").Bool(hasNames)
 		pn, ok1 := csvParse(nb)
 		pl, ok2 := csvParse(lb)
 		pp, ok3 := csvParse(pb)
@@ -349,14 +350,15 @@ type cliReqJSON struct {
 	PeerIds []string `json:"peerIds"`
 }
 
-func runC19(h *H) {
+func runC19(h *H) { runCliAndReaders(h, "C19", h.budget(150, 3000)) }
+
+func runCliAndReaders(h *H, prop string, n int) {
 	g := h.g
 	exe := buildCLI(h)
 	bdir := filepath.Dir(exe)
 	work := filepath.Join(bdir, "cliwork")
 	os.RemoveAll(work)
 	os.MkdirAll(work, 0o755)
-	n := h.budget(150, 3000)
 	outcomes := map[string]int{}
 	for k := 0; k < n; k++ {
 		raw := g.intn(5) == 0
@@ -463,7 +465,7 @@ func runC19(h *H) {
 		var stdout, stderr bytes.Buffer
 		cmd.Stdout, cmd.Stderr = &stdout, &stderr
 		err := cmd.Run()
-		w := h.line("C19", "cli").Bool(raw).Bool(hdr)
+		w := h.line(prop, "cli").Bool(raw).Bool(hdr)
 		pl, okL := csvParse(ltB)
 		w.records(pl).Bool(okL)
 		w.Str("pt").Bool(hasPT)
@@ -561,7 +563,7 @@ func runC19(h *H) {
 			}
 		}
 		var idx map[string]int
-		w := h.line("C19", "readlt").Bool(useNames)
+		w := h.line(prop, "readlt").Bool(useNames)
 		if useNames {
 			idx = map[string]int{}
 			for i, nm := range names {
